@@ -213,7 +213,7 @@ theorem scanPure_tent_le_one (all : List Obj) (s : Sym) : ∀ l : List Obj,
     unfold scanPure
     cases ht : a.isTentative
     · have : isTentOf s a = false := by simp [isTentOf, ht]
-      simp [List.filter, this, ih]
+      simp [this, ih]
     · simp only [Bool.not_true, Bool.false_eq_true, if_false]
       split
       · exact ih
@@ -246,7 +246,7 @@ theorem scanPure_tent_none (all : List Obj) (s : Sym) (hreal : all.any (realDefO
     unfold scanPure
     cases ht : a.isTentative
     · have : isTentOf s a = false := by simp [isTentOf, ht]
-      simp [List.filter, this, ih]
+      simp [this, ih]
     · simp only [Bool.not_true, Bool.false_eq_true, if_false]
       split
       · exact ih
